@@ -8,5 +8,6 @@ export VERIF_ROOT="$(pwd)"
 check="$1"; tier="${2:-quick}"; shift; shift || true
 export VERIF_TIER="$tier"
 mkdir -p bin evidence
-( cd harness && go build -tags verif -o ../bin/lsmc ./cmd/lsmc ) || { echo "BUILD FAILED (harness or /repo does not compile with -tags verif)"; exit 2; }
+[ -x killat/killat ] || make -C killat >/dev/null
+./tools/build.sh /repo "$VERIF_ROOT/harness" "$VERIF_ROOT/bin/lsmc" || { echo "BUILD FAILED (harness or /repo does not compile with -tags verif)"; exit 2; }
 exec ./bin/lsmc "$check" "$@"
